@@ -43,6 +43,8 @@ type Case struct {
 	// clause "alias" (alias.go): the route by which caller-owned objects reach the distribution, and the object mutated afterwards
 	Via string `json:"via,omitempty"`
 	Arg string `json:"mutated_object,omitempty"`
+	// clause "storage" (storage.go): the storage of the evaluation point X that disagrees with the canonical one
+	Form string `json:"storage_form,omitempty"`
 }
 
 type reporter struct {
